@@ -2,6 +2,7 @@
    Only statements, each closed by [exact] and followed by Print Assumptions.
    Model: Model/Precompile.v (tied to vm/contracts.go + vm/evm.go by the `abi` correspondence). *)
 From Verif Require Import Base.Bytes Model.Precompile Proofs.Precompile_proofs.
+From Verif Require Import Gen.GenProps Gen.G14.
 Open Scope N_scope.
 
 (** ABI decoding is exact for every payload and parameter index: the uint64 arithmetic of the
@@ -82,3 +83,15 @@ Example C14_example :
                ++ N_to_be 32 2 ++ right_pad 32 [1;2] in
   blen input < two63 /\ 128 <= blen input /\ decodes input = Some ([107;101;121], [1;2]).
 Proof. vm_compute. repeat split; congruence. Qed.
+
+(** Tie to the source: every declaration this model mirrors (Gen/Pins.v, group 14) still has the digest
+    of the version the model was written against (regenerated from /repo on every run). *)
+Theorem C14_source_reviewed : group_ok 14 = true.
+Proof. exact gen_group_14. Qed.
+Print Assumptions C14_source_reviewed.
+
+(** present from the Berlin rules on, absent before; the standard precompile sets are upstream's *)
+From Verif Require Import Gen.GPrecompiles.
+Theorem C14_precompile_sets : precompile_sets_ok = true.
+Proof. exact gen_precompile_sets. Qed.
+Print Assumptions C14_precompile_sets.
